@@ -306,6 +306,8 @@ func (m *monState) checkPendingLogRemovals(si *StepInfo, atEnd bool) {
 	w := run.cur
 	if w == nil || w.isDead() {
 		m.logsPending = map[string]*pendingLogs{}
+	m.saveOps = nil
+	m.listOps, m.listStart = nil, nil
 		return
 	}
 	var after map[string]string
@@ -384,6 +386,7 @@ type saveOpInfo struct {
 func (m *monState) onSaveOpStart(client int) {
 	run := m.run
 	w := run.cur
+	delete(m.saveOps, client) // whatever an earlier call of this client left behind (it may have been lost in a crash)
 	if w == nil || w.isDead() || w.mem == nil || run.pre == nil {
 		return
 	}
